@@ -117,3 +117,48 @@ class Spec:
 
     def ever(self, u, v):
         return key(self.d, u, v) in self.first
+
+
+def merge_branches(case):
+    """which branch of add_interaction's five-way merge each elementary call of a history takes, replayed against
+    the specification (used only for the evidence histogram: it shows what the correspondence runs exercised)"""
+    directed, removal = bool(case.get("cls")), bool(case.get("rem", 1))
+    P = {}
+    out = []
+    for op in case.get("ops", []):
+        if op[0] in ("clear", "clearedges"):
+            P = {}
+            out.append("clear")
+            continue
+        if op[0] not in ("add", "addfrom", "path", "star", "cycle", "fpath", "fstar", "fcycle"):
+            continue
+        el = elems(op)
+        if el is None:
+            continue
+        pairs, t, e = el
+        if t is None:
+            out.append("missing-t")
+            continue
+        for (u, v) in pairs:
+            k = key(directed, u, v)
+            if removal and e is not None and e <= t:
+                out.append("empty-span"); continue
+            t1 = (e - 1) if (removal and e is not None) else t
+            if k not in P:
+                P[k] = [[t, t1]]; out.append("new"); continue
+            a, b = P[k][-1]
+            if t < a:
+                out.append("reject"); break
+            if not removal:
+                if t <= b + 1:
+                    P[k][-1][1] = max(b, t)
+                else:
+                    P[k].append([t, t])
+                out.append("accumulative"); continue
+            if t1 <= b:
+                out.append("covered")
+            elif t <= b + 1:
+                P[k][-1][1] = t1; out.append("extend-adjacent" if t == b + 1 else "extend-overlap")
+            else:
+                P[k].append([t, t1]); out.append("append")
+    return out
